@@ -377,6 +377,7 @@ class SecSim:
             enc = sc.mutate(enc, m["m"], m.get("a", 0), m.get("v", 0))
             rec["kind"] += ":mut-" + m["m"]
         rec["message"] = enc
+        rec["aa_before"] = set(self.store("aa").keys())
         self.nontrivial = True
         self.probe("api:verify")
         try:
